@@ -36,7 +36,7 @@ SetupRec   == [ex |-> TRUE, nonce |-> 0, bal |-> 0, owner |-> "", meta |-> "", c
                root |-> [has |-> TRUE, m |-> SetupSto]]
 InitSetup ==
     /\ main = [a \in Addr |-> IF a \in SetupAddrs THEN SetupRec ELSE Absent]
-    /\ codeTbl = [c \in Code |-> 0] /\ tries = <<>> /\ holder = NoHolder /\ journal = <<>>
+    /\ codeTbl = [c \in Code |-> 0] /\ tries = <<>> /\ holder = NoHolder /\ journal = <<>> /\ hnd = [a \in Addr |-> <<>>]
     /\ committed = [main |-> main, codeTbl |-> codeTbl]
     /\ persisted = {<<a, SetupSto>> : a \in SetupAddrs}
     /\ stateAt = (0 :> Abs) /\ expect = Abs
@@ -51,6 +51,21 @@ SetupStep ==
 SetupSpec    == InitSetup /\ [][SetupStep]_vars
 GenSetupSpec == InitSetup /\ [][Len(hist) < Depth /\ SetupStep]_vars
 
+\* ---- kept account objects (handles): the accounts in SetupAddrs are driven through kept objects AND fresh
+\* load-modify-save calls, the other accounts through fresh calls only (they share code with the former)
+HCode == {[Keep EXCEPT !.code = c] : c \in Code \cup {"keep"}}
+HAll  == {[dn |-> dn, bal |-> -1, owner |-> "keep", meta |-> o2, code |-> c, w |-> <<>>] :
+             dn \in {0, 1}, o2 \in {"keep", "m1"}, c \in Code \cup {"keep", ""}}
+ChCodeSet == {[Keep EXCEPT !.code = c] : c \in Code \cup {""}}
+HandleStep ==
+    \/ \E a \in SetupAddrs, i \in 1..MaxHandles : Load(a, i)
+    \/ \E a \in SetupAddrs, i \in 1..MaxHandles, ch \in HChanges : SaveH(a, i, ch)
+    \/ \E a \in Addr, ch \in Changes : Save(a, ch)
+    \/ \E a \in SetupAddrs : Remove(a)
+    \/ \E n \in DOMAIN stateAt : Revert(n)
+    \/ Commit
+HandleSpec    == Init /\ [][HandleStep]_vars
+GenHandleSpec == Init /\ [][Len(hist) < Depth /\ HandleStep]_vars
 \* exhaustive checking is bounded by the search depth
 DepthBound == TLCGet("level") <= Depth
 
@@ -79,5 +94,14 @@ SimStep ==
 SimNext  == IF Len(hist) < Depth - 1 THEN SimStep ELSE (Len(hist) = Depth - 1 /\ End)
 SimSpec  == Init /\ [][SimNext]_vars
 SimSetupSpec == InitSetup /\ [][SimNext]_vars
+SimHandleStep ==
+    \/ \E a \in Addr, i \in RandomSubset(1, 1..MaxHandles) : Load(a, i)
+    \/ \E a \in Addr, i \in 1..MaxHandles, ch \in RandomSubset(1, HChanges) : SaveH(a, i, ch)
+    \/ \E a \in Addr, ch \in RandomSubset(1, Changes) : Save(a, ch)
+    \/ \E a \in Addr : main[a].ex /\ RandomElement(1..2) = 1 /\ Remove(a)
+    \/ \E n \in RandomSubset(2, DOMAIN stateAt) : Revert(n)
+    \/ RandomElement(1..4) = 1 /\ Commit
+SimHandleSpec == Init /\ [][IF Len(hist) < Depth - 1 THEN SimHandleStep ELSE (Len(hist) = Depth - 1 /\ End)]_vars
+
 EmitFull == (Len(hist') = Depth) => PrintT("@@B " \o ToJson(hist'))
 ====
